@@ -195,6 +195,21 @@ def run_copies(ctx, out):
             case["srcs"] = case["srcs"][:1]
         srcargs, destarg = build(case, d)
         notd = "-T" in case["flags"]
+        if case["dest_state"] in ("absent", "emptydir", "populated-other") and rng.random() < 0.3:
+            # a link somewhere inside a directory source that RESOLVES TO WHERE THE COPY GOES (the mapped target directory
+            # or the destination itself: a `mirror -> ../../backups/proj` kept inside the project): a link like any other
+            nm0 = case["srcs"][0][0]
+            s0 = os.path.join(os.fsencode(d), nm0)
+            if os.path.isdir(s0) and not os.path.islink(s0):
+                dabs0 = os.path.join(os.fsencode(d), b"dest")
+                mapped = dabs0 if (notd or not os.path.isdir(dabs0)) else os.path.join(dabs0, nm0)
+                subs = [os.path.join(r, x) for r, ds, _ in os.walk(s0) for x in ds if not os.path.islink(os.path.join(r, x))]
+                host = rng.choice([s0] + subs)
+                for target_is in rng.sample(["mapped", "dest"], 2)[:rng.choice([1, 2])]:
+                    lname = os.path.join(host, b"zz_mirror_" + target_is.encode())
+                    tgt = mapped if target_is == "mapped" else dabs0
+                    os.symlink(tgt if rng.random() < 0.5 else os.path.relpath(tgt, host), lname)
+                out.count("link_resolving_to_the_target")
         nflags, nw, ncpus = xcp.neutral(rng)
         argv = [ctx.bins["xcp"], "-r", "--driver", case["driver"], "-w", nw or str(case["workers"])] + nflags + case["flags"]
         out.count("workers_auto(-w 0)" if nw else "workers_explicit")
